@@ -166,14 +166,18 @@ impl<'tcx> Cx<'tcx> {
             res_args = inst.args;
             resolved = !virt;
         }
-        // a trait method that stayed a trait method is not resolved to an impl
+        // a trait method that stayed a trait method counts as resolved only when the trait
+        // provides a default body for it (the default body is then what runs)
         let is_trait_item = tcx.trait_of_assoc(res_did).is_some();
-        if is_trait_item && res_did == did {
-            // default method body (provided method) counts as resolved only if Instance said Item
-            // and the method has a default body
-            let has_body = tcx.is_mir_available(res_did) || (res_did.is_local() && tcx.hir_maybe_body_owned_by(res_did.expect_local()).is_some());
-            if !has_body {
-                resolved = false;
+        if is_trait_item && res_did == did && !tcx.defaultness(res_did).has_value() {
+            resolved = false;
+        }
+        if is_trait_item && res_did == did && resolved {
+            // default body with a still-generic Self: resolved only if Self is a concrete type
+            if let Some(t) = args.get(0).and_then(|a| a.as_type()) {
+                if matches!(t.kind(), ty::Param(_)) {
+                    resolved = false;
+                }
             }
         }
         self.note_extern(res_did);
